@@ -6,8 +6,10 @@ proof : lean/GeosModel/Props/C19.lean
           line merging: soundness of the executable merge-contract checker + merge_preserves_edges / merge_maximal / directed;
           noding / polygonize / shared paths: soundness of the exact contract checkers.
 tie   : correspondence harness/c19.cpp <-> lean/Driver/C19.lean
-          linref       the Float instance of the model must reproduce GEOSProject/Interpolate/LineSubstring (+Normalized)
-                       bit for bit (same IEEE operations in the same order; tolerance 0 ulp)
+          linref       the Float instance of the model must reproduce GEOSProject/Interpolate/LineSubstring (+Normalized) and the
+                       C++ API LengthIndexedLine::extractLine / clampIndex / isValidIndex, LengthLocationMap::getLocation / getLength,
+                       LineSegment::segmentFraction (indices from the whole documented domain) bit for bit (tolerance 0 ulp)
+translator: translate/specs/linref.py -> Generated/LinRef.lean -> Props/C19Gen.lean (regenerated C++ = model, every run)
           merge/node/polygonize/sharedpaths
                        the case carries input + output of GEOS; the driver runs the proved-sound checkers exactly (doubles scaled
                        to integers) — a "violated:<clause>" answer is a concrete input on which the property's contract fails
@@ -67,7 +69,7 @@ def input_part(stream, case):
         ls, p = parse_set(t, 1)
         if t[0] == "RT":
             return t[:1], [ls], t[p:p + 3]          # | px py
-        if t[0] == "IL":
+        if t[0] in ("IL", "CL"):
             return t[:1], [ls], t[p:p + 1]
         return t[:1], [ls], t[p:p + 2]
     if stream == "linref":
@@ -231,6 +233,10 @@ def linref_to_oracle(case):
         a, b = hx(t[p]), hx(t[p + 1])
         if 0 <= a <= 1 and 0 <= b <= 1:
             return "SL " + show_set(ls) + " " + t[p] + " " + t[p + 1]
+    if t[0] == "X":          # LengthIndexedLine::extractLine(a, b) through the C++ API
+        return "XL " + show_set(ls) + " " + t[p] + " " + t[p + 1]
+    if t[0] == "C":          # LengthIndexedLine::clampIndex(a)
+        return "CL " + show_set(ls) + " " + t[p]
     return None
 
 
@@ -244,8 +250,11 @@ def run(ctx):
         "decomposition of an output coordinate list into input lines (Model/Lines/Noding.lean `decompose`) and the harness' geometry "
         "traversal are trusted; polygon interior-connectedness is taken from GEOSisValid_r",
         "NaN/Inf ordinates, empty components and Z/M are excluded",
+        "translator tie: 26 functions of src/linearref + LineSegment / Distance / Coordinate are regenerated from the C++ (translate/cxx2lean.py, spec linref) and proved equal to the "
+        "model over Rat (Props/C19Gen.lean) under explicit connecting hypotheses (LinearIterator positions = the model's items, getLength() = totalLen, getEndLocation = endLoc); "
+        "the translator, its spec configuration and the functions it cannot express (setToEnd, resolveHigher, ExtractLineByLocation, ...) remain trusted / correspondence-only",
     ])
-    proved = ctx.prove(PROPS, extra_targets=(DRV,))
+    proved = ctx.prove_generated([("linref", "GeosModel/Generated/LinRef.lean", "GeosModel.Props.C19Gen")], PROPS, extra_targets=(DRV,))
     ok, out = verif.build_geos("rel")
     if not ok:
         ctx.violation("GEOS does not build with -DGEOS_VERIF", {"kind": "build-failure", "log": out[-3000:]}, nofail=True)
